@@ -274,6 +274,10 @@ func buildValue(spec string) (v interface{}, rt bool, fresh func() interface{}) 
 		return v, !b.lossy, func() interface{} { return &jRec{} }
 	case "jmap": // map with sorted-key behaviour and HTML characters
 		return map[string]interface{}{"z": 1.0, "a": "<b>&</b>", "m": []interface{}{true, nil, "x"}}, true, nil
+	case "jsj": // a STRING whose text happens to be a JSON document: it is a string, encoded as one
+		return []string{"[]", "{}", `{"a":1}`, `[1, 2]`, "null", "7"}[arg%6], true, nil
+	case "jbj": // bytes that happen to be a JSON document: encoded like any []byte (base64 text)
+		return [][]byte{[]byte("7"), []byte(`{"a":1}`), []byte("[]"), []byte("true")}[arg%4], false, nil
 	case "jchan":
 		return map[string]interface{}{"ok": 1.0, "c": make(chan int)}, false, nil
 	case "jfunc":
@@ -776,7 +780,7 @@ func execVisibility(chainA, chainB string) string {
 // ---------------------------------------------------------------------------- generator
 
 var (
-	renderCharsets = []string{"", "utf-8", "gbk"}
+	renderCharsets = []string{"", "utf-8", "gbk", "Shift_JIS", "ISO_8859-1:1987", "x-user-defined-charset-of-more-than-forty-bytes"}
 	renderIndents  = []string{"", "  ", "\t"}
 	renderMethods  = []string{"GET", "HEAD", "POST"}
 	oddCharsets    = []string{"UTF-16", "iso-8859-1", "x y", "\"q\"", "ü"}
@@ -890,7 +894,7 @@ func randJSONSpec(r *rand.Rand) string {
 	case k < 16:
 		return fmt.Sprintf("jr:%d:%d", r.Intn(1<<30), r.Intn(3))
 	case k < 17:
-		return "jmap"
+		return []string{"jmap", fmt.Sprintf("jsj:0:%d", r.Intn(6)), fmt.Sprintf("jbj:0:%d", r.Intn(4))}[r.Intn(3)]
 	default:
 		return jsonBad[r.Intn(len(jsonBad))]
 	}
